@@ -34,6 +34,8 @@ POSITIONS = {
     "check_eq": ("CREATE TABLE t (c0 int, c1 varchar(10) CHECK (c1 = {L}), c2 int);", {}),
     "check_in": ("CREATE TABLE t (c0 int, c1 varchar(10) CHECK (c1 IN ({L}, 'z')), c2 int);", {}),
     "check_named": ("CREATE TABLE t (c0 int, c1 varchar(10), c2 int, CONSTRAINT ck CHECK (c1 <> {L}));", {}),
+    "check_and": ("CREATE TABLE t (c0 int, c1 varchar(10) CHECK (c1 <> {L} AND c0 > 0), c2 int);", {}),
+    "check_table": ("CREATE TABLE t (c0 int, c1 varchar(10), c2 int, CHECK (c1 <> {L}));", {}),
     "type_enum": ("CREATE TYPE ty AS ENUM ({L}, 'z');", {}),
     "col_enum": ("CREATE TABLE t (c0 int, c1 ENUM({L}, 'z'), c2 int);", {"output_mode": "mysql"}),
     "location": ("CREATE TABLE t (c0 int, c1 varchar(10), c2 int) LOCATION {L};", {"output_mode": "hql"}),
@@ -41,6 +43,10 @@ POSITIONS = {
     "comment_eq": ("CREATE TABLE t (c0 int, c1 varchar(10), c2 int) COMMENT={L};", {"output_mode": "snowflake"}),
     "options": ("CREATE TABLE t (c0 int, c1 varchar(10), c2 int) OPTIONS (description={L});", {"output_mode": "bigquery"}),
 }
+# SQL words in lower / mixed case (the upper-case ones are atoms): alone, leading, trailing and between two words
+WORDS = ["and", "or", "not", "null", "in", "like", "is", "between", "select", "create", "default", "table", "check", "desc", "true"]
+PHRASES = [f(w) for w in WORDS for f in (lambda w: w, lambda w: w.capitalize(), lambda w: "a " + w + " b", lambda w: w + " a", lambda w: "A " + w.capitalize(),
+                                        lambda w: "a " + w.upper() + " b")]
 NUMS = [str(10 ** k) for k in range(0, 20)] + ["0", "7", "007", "0012", "1234", "99999", str(2 ** 31), str(2 ** 31 - 1), str(2 ** 63), str(2 ** 63 - 1),
                                               "12345678901234567890", "9" * 20, "1" * 19]
 NUMCTX = [("int", ""), ("bigint", " NOT NULL"), ("numeric(20)", ", c2 int"), ("int", " PRIMARY KEY")]
@@ -65,6 +71,10 @@ def gen_cases(tier):
             if s not in seen:
                 seen.add(s)
                 lits.append(s)
+    for s in PHRASES:
+        if s not in seen:
+            seen.add(s)
+            lits.append(s)
     cases = []
     for s in [""] + lits:
         if s.replace("''", "").count("'"):
